@@ -21,7 +21,7 @@ import (
 var (
 	c11Entries = []string{"Validate", "ValidateWithConfiguration", "CompileProfile", "Compile>ValidateCompiled", "Compile>ValidateCompiledWithConfiguration", "ValidateCompiled(handle compiled without channel)"}
 	c11Faults  = []string{"none", "profile-not-yaml", "profile-not-mapping", "no-profile-key", "no-validations", "no-targetClass", "unparsable-path", "unknown-prefix",
-		"rego-does-not-compile", "denied-builtin", "data-not-json", "data-jsonld-rejects", "data-no-nodes", "evaluation-error", "report-building-failure"}
+		"rego-does-not-compile", "denied-builtin", "data-not-json", "data-jsonld-rejects", "data-no-nodes", "evaluation-error", "report-building-failure", "nil-validation-configuration"}
 	c11Caps = []int{64, 1, 0}
 )
 
@@ -36,6 +36,9 @@ var faultStage = map[string]e.EventType{
 	"data-jsonld-rejects":     e.InputDataNormalizationStart,
 	"evaluation-error":        e.OpaValidationStart,
 	"report-building-failure": e.BuildReportStart,
+	// the *WithConfiguration entry points handed a nil ValidationConfiguration while the report configuration asks
+	// for the creation time: a caller's mistake, answered with an error - and with the channel closed
+	"nil-validation-configuration": e.BuildReportStart,
 }
 
 var (
@@ -177,6 +180,14 @@ func genC11(entry, fault string, capacity int) func(*rapid.T) c11Case {
 	}
 }
 
+// clock is the ValidationConfiguration handed to the *WithConfiguration entry points (nil for the fault of that name)
+func (c c11Case) clock() config.ValidationConfiguration {
+	if c.Fault == "nil-validation-configuration" {
+		return nil
+	}
+	return clock0
+}
+
 type c11Obs struct {
 	events           []e.Event
 	closedAt         string // "", or description of when closure was observed
@@ -237,6 +248,9 @@ func decideC11(c c11Case) ev.Verdict {
 			applicable = false
 		}
 	}
+	if c.Fault == "nil-validation-configuration" && !strings.HasSuffix(c.Entry, "WithConfiguration") {
+		applicable = false
+	}
 	if !applicable {
 		return ev.Verdict{Discard: true, Detail: "fault not applicable to entry point"}
 	}
@@ -267,7 +281,7 @@ func decideC11(c c11Case) ev.Verdict {
 	cfgCall := func(q *rego.PreparedEvalQuery, withCfg bool) call {
 		return guard(func() (string, error) {
 			if withCfg {
-				return pkg.ValidateCompiledWithConfiguration(q, c.Data, c.Debug, &ch, clock0, config.DefaultReportConfiguration())
+				return pkg.ValidateCompiledWithConfiguration(q, c.Data, c.Debug, &ch, c.clock(), config.DefaultReportConfiguration())
 			}
 			return pkg.ValidateCompiled(q, c.Data, c.Debug, &ch)
 		})
@@ -279,7 +293,7 @@ func decideC11(c c11Case) ev.Verdict {
 	case "ValidateWithConfiguration":
 		expected = append(append([]e.EventType{}, compilePart...), validatePart...)
 		res = guard(func() (string, error) {
-			return pkg.ValidateWithConfiguration(c.Profile, c.Data, c.Debug, &ch, clock0, config.DefaultReportConfiguration())
+			return pkg.ValidateWithConfiguration(c.Profile, c.Data, c.Debug, &ch, c.clock(), config.DefaultReportConfiguration())
 		})
 	case "CompileProfile":
 		expected = compilePart
